@@ -30,7 +30,7 @@ type LLoad struct {
 	NestAt int              `json:"nest_at,omitempty"`
 	Tree   bool             `json:"tree_dump,omitempty"` // WithTreeDump
 	Code   bool             `json:"code_dump,omitempty"` // WithCodeDump
-	Nested *LLoad           `json:"nested,omitempty"` // a reload performed when the NestAt-th marker of this load runs
+	Nested *LLoad           `json:"nested,omitempty"`    // a reload performed when the NestAt-th marker of this load runs
 }
 
 type LSaveAt struct {
